@@ -6,7 +6,11 @@
 use crate::annotations::Disease;
 use crate::term::internal::HpoTermInternal;
 use std::collections::hash_map::Entry;
+#[cfg(not(feature = "verif"))]
 use std::collections::HashMap;
+#[cfg(feature = "verif")]
+#[allow(unused_imports)]
+use crate::verif::{HashMap, MapNew};
 use std::marker::PhantomData;
 use std::ops::BitOr;
 
